@@ -8,10 +8,10 @@
 (* rule is an action here, so call counters of counted fakes evolve in step.    *)
 EXTENDS Injectorpp, Json
 
-CONSTANTS MaxLives, MaxInstalls, FuncSeq, Gates
+CONSTANTS MaxLives, MaxInstalls, FuncSeq, Gates, UserCalls, MaxUserCalls, InstallKinds, Faults
 
-VARIABLES hist, needProbe
-avars == <<vars, hist, needProbe>>
+VARIABLES hist, needProbe, ncalls
+avars == <<vars, hist, needProbe, ncalls>>
 
 MCSplit == [f \in Funcs |-> SlotLen]
 MCNVals == {-1, 1}
@@ -45,16 +45,23 @@ Probe ==
 
 Quiet(A) == A /\ UNCHANGED <<hist, needProbe>>
 
-NextApi ==
-  /\ Alive
-  /\ \/ Probe
+OutName(o) == IF o.res.kind \in {"panic-args", "panic-over"} THEN o.res.kind ELSE Name(o.res)
+
+NextApi0 ==
+     \/ Probe
      \/ /\ ~needProbe
         /\ \/ /\ th[T].lives < MaxLives /\ Begin(T, "inj")
               /\ hist' = Append(hist, [act |-> "New"]) /\ UNCHANGED needProbe
            \/ Acquire(T) /\ needProbe' = TRUE /\ UNCHANGED hist
            \/ /\ UserPanic(T)
               /\ hist' = Append(hist, [act |-> "Panic"]) /\ UNCHANGED needProbe
-           \/ \E f \in Funcs, kind \in {"jump", "bool"}, fk \in Fakes \cup BoolSet, st \in Sites \cup {NoSite},
+           \/ /\ UserCalls /\ ncalls < MaxUserCalls
+              /\ \E f \in Funcs, m \in MatchVals :
+                   \/ /\ Call(T, f, m) /\ UNCHANGED needProbe
+                      /\ hist' = Append(hist, [act |-> "Call", f |-> f, match |-> m, out |-> OutName(CallOutcome(f, m))])
+                   \/ /\ CallPanics(T, f, m) /\ UNCHANGED needProbe
+                      /\ hist' = Append(hist, [act |-> "CallUnwind", f |-> f, match |-> m, out |-> OutName(CallOutcome(f, m))])
+           \/ \E f \in Funcs, kind \in InstallKinds, fk \in Fakes \cup BoolSet, st \in Sites \cup {NoSite},
                  n \in NVals, g \in Gates :
                  /\ Len(Guards(T)) < MaxInstalls
                  /\ (kind = "bool") = (fk \in BoolSet)
@@ -71,11 +78,11 @@ NextApi ==
            \/ /\ GateRefuse(T)
               /\ hist' = Append(hist, [act |-> "InstallPanic", cls |-> cur[T].gate]) /\ UNCHANGED needProbe
            \/ Quiet(\E id \in TrampIds : AllocOk(T, id))
-           \/ /\ AllocFail(T)
+           \/ /\ "mmap" \in Faults /\ AllocFail(T)
               /\ hist' = Append([hist EXCEPT ![Len(hist)].fault = "mmap"], [act |-> "InstallPanic", cls |-> "alloc-exhausted"])
               /\ UNCHANGED needProbe
            \/ Quiet(WriteTramp(T)) \/ Quiet(FlushTramp(T)) \/ Quiet(ReadOrig(T)) \/ Quiet(MprotectOk(T))
-           \/ /\ MprotectFail(T)
+           \/ /\ "mprotect" \in Faults /\ MprotectFail(T)
               /\ hist' = Append([hist EXCEPT ![Len(hist)].fault = "mprotect"], [act |-> "InstallPanic", cls |-> "mprotect"])
               /\ UNCHANGED needProbe
            \/ Quiet(WriteEntry(T)) \/ Quiet(FlushEntryStep(T)) \/ Quiet(PushGuard(T))
@@ -91,7 +98,13 @@ NextApi ==
            \/ /\ Unlock(T) /\ needProbe' = TRUE
               /\ hist' = Append(hist, [act |-> "End", panics |-> th[T].panics, unwound |-> th[T].panicking])
 
-SpecApi == Init /\ hist = <<>> /\ needProbe = FALSE /\ [][NextApi]_avars
+NextApi ==
+  /\ Alive
+  /\ NextApi0
+  /\ ncalls' = IF th'[T].pc = "idle" THEN 0
+                ELSE IF hist' # hist /\ hist'[Len(hist')].act \in {"Call", "CallUnwind"} THEN ncalls + 1 ELSE ncalls
+
+SpecApi == Init /\ hist = <<>> /\ needProbe = FALSE /\ ncalls = 0 /\ [][NextApi]_avars
 
 \* restore / unmap in the one order the implementation uses (newest first): the generator
 \* needs one representative, the exhaustive models explore all of them
@@ -103,4 +116,8 @@ CanonDrop ==
 Finished == th[T].lives = MaxLives /\ th[T].pc = "idle" /\ ~needProbe
 Emit == Finished => PrintT(<<"REPLAY", ToJson(hist)>>)
 View == <<vars, hist, needProbe>>
+MCNVals3 == {-1, 0, 1, 2}
+MCNValsC == {0, 1, 2}
+MCFuncSeq1 == <<"f1">>
+MCSites1 == {1}
 =============================================================================
